@@ -364,7 +364,7 @@ static int build_image (rq_image *im, vf_rng *r, int role)
         if (!im->amap) return 0;
         pixman_image_set_alpha_map (im->img, im->amap, (int16_t)im->am_x, (int16_t)im->am_y);
     }
-    if (im->accessors && im->kind == RQ_BITS) pixman_image_set_accessors (im->img, acc_read, acc_write);
+    if (im->accessors && im->kind == RQ_BITS && PIXMAN_FORMAT_BPP (im->fmt) <= 32) pixman_image_set_accessors (im->img, acc_read, acc_write);    /* accessors only exist for <= 32 bpp (the call is refused with a logged error otherwise) */
     return 1;
 }
 
